@@ -115,6 +115,51 @@ class VDirectlyPartOf(VPartOf):
     pass
 
 
+@dataclass
+class VOrg(Symbol):
+    name: str
+
+    def __hash__(self):
+        return hash(self.name)
+
+    def __repr__(self):
+        return self.name
+
+
+@dataclass
+class VWorker(Symbol):
+    """declares the SUB-property; the super-property's field only exists on the subclass below"""
+    name: str
+    employer: VOrg = None
+
+    def __hash__(self):
+        return hash(self.name)
+
+    def __repr__(self):
+        return self.name
+
+
+@dataclass
+class VContractor(VWorker):
+    affiliations: List[VOrg] = field(default_factory=list)
+
+    def __hash__(self):
+        return hash(self.name)
+
+
+@dataclass
+class VAffiliatedWith(PropertyDescriptor):
+    ...
+
+
+@dataclass
+class VEmployedBy(VAffiliatedWith):
+    ...
+
+
+VWorker.employer = VEmployedBy(VWorker, "employer")
+VContractor.affiliations = VAffiliatedWith(VContractor, "affiliations")
+
 VUnit.part_of = VPartOf(VUnit, "part_of")
 VUnit.has_part = VHasPart(VUnit, "has_part")
 VUnit.directly_part_of = VDirectlyPartOf(VUnit, "directly_part_of")
@@ -133,6 +178,8 @@ FIELDS = {
     (VCEO, "head_of"): (VHeadOf, True),
     (VCompany, "members"): (VMember, False),
     (VCompany, "sub_organization_of"): (VSubOrganizationOf, False),
+    (VWorker, "employer"): (VEmployedBy, True),
+    (VContractor, "affiliations"): (VAffiliatedWith, False),
     (VUnit, "part_of"): (VPartOf, False),
     (VUnit, "has_part"): (VHasPart, False),
     (VUnit, "directly_part_of"): (VDirectlyPartOf, False),
